@@ -1,10 +1,10 @@
 (* C13/Props.v — the property theorems, nothing else.
    Model: C13/Model.v (src/shlex.py, src/callbacks.py Tokenizer/tokenize, utils.str.dqrepr, CPython unicode_escape),
-   C13/Utf8.v (strict UTF-8, Latin-1).  Proofs: Utf8.v, Lemmas.v, Roundtrip.v, Dqrepr.v, Brackets.v, Nested.v, Render.v.
+   C13/Utf8.v (strict UTF-8, Latin-1).  Proofs: Utf8.v, Lemmas.v, Roundtrip.v, Dqrepr.v, Brackets.v, Nested.v, Render.v, Lookup.v.
    [named] is the unicodedata name table behind \N{...}: any function. *)
 From Coq Require Import List NArith.
 Import ListNotations.
-Require Import Base.Wire Base.PyStr C13.Utf8 C13.Model C13.Lemmas C13.Roundtrip C13.Dqrepr C13.Brackets C13.Nested C13.Render.
+Require Import Base.Wire Base.PyStr C13.Utf8 C13.Model C13.Lemmas C13.Roundtrip C13.Dqrepr C13.Brackets C13.Nested C13.Render C13.Lookup.
 
 (* Tokenising any text (any code points, lone surrogates included) under any
    configuration yields a tree of string tokens or SyntaxError, never another failure. *)
@@ -125,3 +125,31 @@ Theorem C13_dqrepr_roundtrip_nested :
   tokenize named c (nested_dq lb rb n args) = Ok (nest n (map Leaf args)).
 Proof. exact dqrepr_roundtrip_nested. Qed.
 Print Assumptions C13_dqrepr_roundtrip_nested.
+
+(* Which configuration a message is tokenised with (callbacks.tokenize(s, channel, network) -> Value.getSpecific /
+   conf.get, modelled by get_specific / conf_get / cfg_at): when the values set at the levels that apply to the
+   message (its channel, its network, its channel on that network; a name that is not a channel name / not a
+   connected network does not count) are all the same value v, that value is used; when none is set, the global one. *)
+Theorem C13_lookup_unambiguous :
+  forall (V : Type) (st : store V) (net chan : bool) (v : V),
+  applicable st net chan <> [] -> (forall x, In x (applicable st net chan) -> x = v) ->
+  get_specific st net chan = v /\ conf_get st chan net = v.
+Proof. intros V st net chan v H1 H2. split; [apply lookup_unambiguous|apply conf_get_unambiguous]; assumption. Qed.
+Print Assumptions C13_lookup_unambiguous.
+
+Theorem C13_lookup_default :
+  forall (V : Type) (st : store V) (net chan : bool),
+  applicable st net chan = [] -> get_specific st net chan = s_base st /\ conf_get st chan net = s_base st.
+Proof. intros V st net chan H. split; [apply lookup_default|apply conf_get_default]; exact H. Qed.
+Print Assumptions C13_lookup_default.
+
+(* "If this string is empty, nested commands will not be allowed in this channel": with brackets '' set for the
+   channel (and no network-level value), any words -- brackets included -- sent in that channel stay a flat list. *)
+Theorem C13_channel_without_nesting :
+  forall named (k : conf) (l : loc) (ws : list str),
+  loc_chan l = true -> s_chan (k_brackets k) = Some None ->
+  s_net (k_brackets k) = None -> s_netchan (k_brackets k) = None ->
+  Forall (fun w => word (tk_of (cfg_at k l)) w = true) ws ->
+  tokenize_at named k l (join [SP] ws) = Ok (map Leaf ws).
+Proof. exact channel_without_nesting. Qed.
+Print Assumptions C13_channel_without_nesting.
